@@ -33,7 +33,12 @@ def clean(wt):
 
 def main():
     wt, k, prop = sys.argv[1], sys.argv[2], sys.argv[3]
-    forced = [a.split("=", 1) for a in sys.argv[4:] if "=" in a and not a.startswith("--")]
+    tag = ""
+    rest = sys.argv[4:]
+    if "--tag" in rest:
+        tag = rest[rest.index("--tag") + 1]
+        rest = [a for i, a in enumerate(rest) if a != "--tag" and (i == 0 or rest[i - 1] != "--tag")]
+    forced = [a.split("=", 1) for a in rest if "=" in a and not a.startswith("--")]
     mdir = os.path.join(wt, "mutations", "m" + k)
     patch = os.path.join(mdir, "patch.diff")
     notes = open(os.path.join(mdir, "NOTES.md")).read() if os.path.exists(os.path.join(mdir, "NOTES.md")) else ""
@@ -50,7 +55,11 @@ def main():
     if not dests:
         sys.exit("cannot find demo copy instructions in NOTES.md (pass SRC=DST)")
     pkgs = sorted({os.path.dirname(d) for _, d in dests})
-    result = {"id": f"{prop}-m{k}", "property": prop, "worktree": wt, "demo_files": dests, "steps": {}}
+    sid = f"{prop}-{tag}m{k}"
+    mflags = re.search(r"DEMO_FLAGS:\s*(\S.*)", notes)
+    if mflags and not os.environ.get("DEMO_FLAGS"):
+        os.environ["DEMO_FLAGS"] = mflags.group(1).strip().strip("`")
+    result = {"id": sid, "property": prop, "worktree": wt, "demo_files": dests, "steps": {}}
 
     def put_demo():
         for s, d in dests:
@@ -107,7 +116,6 @@ def main():
     result["confirmed"] = bool(ok1 and okb and ok2 and ok3)
     result["caught"] = rc == 1
     # record
-    sid = f"{prop}-m{k}"
     dst = os.path.join("/verif/seeded", sid)
     if result["confirmed"]:
         os.makedirs(dst, exist_ok=True)
